@@ -241,6 +241,12 @@ Section Instance.
     assert (Hww : wf_bytes w) by (rewrite Hpre; apply wf_firstn; exact Hwd).
     unfold storage_half, serial_half. rewrite Hd.
     rewrite (parse_storage_stable (i_index st) w _ Hww Hla), (parse_serial_stable (i_index st) w _ Hww Hla).
+    (* `avail >= MIN_DLT_MSG_SIZE` (iterator fix 9045554) holds on the window and on the whole rest alike *)
+    assert (Hav1 : (MIN_DLT_MSG_SIZE <=? blen w) = true)
+      by (apply N.leb_le; unfold MIN_DLT_MSG_SIZE, LOOKAHEAD, MAX_FRAME, nlen, blen in *; lia).
+    assert (Hav2 : (MIN_DLT_MSG_SIZE <=? blen (w ++ ndrop (nlen w) d)) = true)
+      by (apply N.leb_le; rewrite blen_app; unfold MIN_DLT_MSG_SIZE, LOOKAHEAD, MAX_FRAME, nlen, blen in *; lia).
+    rewrite Hav1, Hav2.
     split; reflexivity.
   Qed.
 
@@ -362,7 +368,7 @@ Proof.
   - apply on_msg_shift; [exact H|]. apply Hb. unfold on_msg in H.
     destruct (add_chk u32max (i_index st) 1); cbn [bind] in H; inversion H. reflexivity.
   - destruct (i_det_storage st); inversion H; subst a; cbn [action_shift]; [rewrite skip1_shift|]; reflexivity.
-  - destruct (i_det_storage st); inversion H; subst a; reflexivity.
+  - destruct (i_det_storage st); cbn [orb] in *; [|destruct (MIN_DLT_MSG_SIZE <=? blen w)]; inversion H; subst a; reflexivity.
 Qed.
 
 Lemma serial_half_shift di dp dk st w a :
@@ -430,7 +436,7 @@ Proof.
         - pose proof E1 as E1'. unfold on_msg in E1'. destruct (add_chk u32max (i_index st) 1); cbn [bind] in E1'; inversion E1'; subst.
           exact (Hy true n m _ E1).
         - destruct (i_det_storage st); discriminate.
-        - destruct (false || i_det_storage st); discriminate. }
+        - destruct (false || i_det_storage st || (MIN_DLT_MSG_SIZE <=? blen d)); discriminate. }
       specialize (Hb ltac:(discriminate)). lia. }
     rewrite (storage_half_shift di dp dk st d a1 E1 Hb1). cbn [bind].
     destruct a1 as [n m st1|st1| |]; cbn [action_shift].
@@ -473,9 +479,11 @@ Proof.
     + destruct (i_det_storage st); cbn [bind] in H.
       * apply IH in H. cbn [skip1 i_index] in H. exact H.
       * apply Hserial. exact H.
-    + cbn [orb] in H. destruct (i_det_storage st); cbn [bind] in H.
+    + cbn [orb] in H. destruct (i_det_storage st); cbn [orb bind] in H.
       * inversion H; subst. lia.
-      * apply Hserial. exact H.
+      * destruct (MIN_DLT_MSG_SIZE <=? blen d); cbn [bind] in H.
+        -- inversion H; subst. lia.
+        -- apply Hserial. exact H.
 Qed.
 
 Lemma drain_index_mono : forall fuel nfuel st d ms st' rest,
@@ -599,4 +607,131 @@ Proof.
   rewrite Hy.
   rewrite (drain_shift (i_index st + N.of_nat (length l)) (i_processed st + blen (encs f l)) (i_skipped st)
              fuel (S nfuel) (latched f st) s ms st' rest Hd ltac:(lia)). reflexivity.
+Qed.
+
+(* ------------------------------------------------------------------ a fresh iterator recognises what a latched one does *)
+Lemma no_other_marker_tl f d : no_other_marker f d -> no_other_marker f (skipn 1 d).
+Proof. intros H i. rewrite FrameProofs.skipn_skipn. apply H. Qed.
+
+Lemma blen_skipn1 (d : bytes) : blen (skipn 1 d) <= blen d.
+Proof. unfold blen. rewrite skipn_length. lia. Qed.
+
+(* fewer than 20 bytes, nothing latched, no serial marker: nothing is yielded any more *)
+Lemma tail_none : forall fuel st d o st' d',
+  i_det_storage st = false -> i_det_serial st = false -> blen d < 20 -> no_other_marker Storage d ->
+  next fuel st d = Ok (o, st', d') -> o = None.
+Proof.
+  unfold next. induction fuel as [|f IH]; intros st d o st' d' Hs Hl Hb Hn H; [discriminate|].
+  rewrite next_S in H. rewrite Hl, Hs in H.
+  unfold storage_half in H. rewrite (parse_storage_short _ _ Hb) in H. rewrite Hs in H.
+  assert (E : (MIN_DLT_MSG_SIZE <=? blen d) = false) by (apply N.leb_gt; exact Hb). rewrite E in H.
+  cbn [orb bind] in H. unfold serial_half in H.
+  destruct (N.lt_ge_cases (blen d) 8) as [H8|H8].
+  - destruct (parse_serial_short (i_index st) d H8) as [k Hk]. rewrite Hk in H. cbn [bind] in H. inversion H. reflexivity.
+  - rewrite (parse_serial_nopat (i_index st) d H8 (Hn 0%nat)) in H. cbn [bind] in H.
+    apply (IH (skip1 st) (skipn 1 d) o st' d'); auto.
+    + pose proof (blen_skipn1 d). lia.
+    + apply (no_other_marker_tl Storage). exact Hn.
+Qed.
+
+Lemma next_fresh_storage : forall fuel st d o st' d',
+  i_det_storage st = false -> i_det_serial st = false -> no_other_marker Storage d ->
+  next fuel st d = Ok (o, st', d') ->
+  (o = None /\ exists st'' d'', next fuel (latch Storage st) d = Ok (None, st'', d'')) \/
+  (exists m, o = Some m /\ next fuel (latch Storage st) d = Ok (Some m, st', d')).
+Proof.
+  unfold next. induction fuel as [|f IH]; intros st d o st' d' Hs Hl Hn H; [discriminate|].
+  pose proof H as H0. rewrite next_S in H |- *. cbn [latch i_det_serial i_det_storage]. rewrite Hl, Hs in H. rewrite Hl.
+  unfold storage_half in *. cbn [latch i_index i_det_storage].
+  destruct (parse_storage (i_index st) d) as [n m| |k] eqn:Ep.
+  - (* a message: both yield it and end in the same state *)
+    change (on_msg true (latch Storage st) n m) with (on_msg true st n m).
+    destruct (on_msg true st n m) as [a| |] eqn:Eo; cbn [bind] in H |- *; try discriminate.
+    destruct (on_msg_index _ _ _ _ _ Eo) as [st1 [-> _]]. inversion H; subst. right. exists m. split; reflexivity.
+  - rewrite Hs in H. cbn [bind] in H |- *.
+    pose proof (parse_storage_invalid _ _ Ep) as H20.
+    unfold serial_half in H. rewrite (parse_serial_nopat (i_index st) d ltac:(lia) (Hn 0%nat)) in H. cbn [bind] in H.
+    change (skip1 (latch Storage st)) with (latch Storage (skip1 st)).
+    apply (IH (skip1 st) (skipn 1 d) o st' d'); auto. apply (no_other_marker_tl Storage). exact Hn.
+  - rewrite Hs in H. cbn [orb] in H |- *.
+    destruct (MIN_DLT_MSG_SIZE <=? blen d) eqn:E20; cbn [bind] in H |- *.
+    + inversion H; subst. left. split; [reflexivity|]. eexists. eexists. reflexivity.
+    + left. split; [|eexists; eexists; reflexivity].
+      apply N.leb_gt in E20. unfold MIN_DLT_MSG_SIZE in E20.
+      exact (tail_none (Datatypes.S f) st d o st' d' Hs Hl E20 Hn H0).
+Qed.
+
+Lemma next_fresh_serial : forall fuel st d o st' d',
+  i_det_storage st = false -> i_det_serial st = false -> no_other_marker Serial d ->
+  next fuel st d = Ok (o, st', d') ->
+  (o = None /\ exists st'' d'', next fuel (latch Serial st) d = Ok (None, st'', d'')) \/
+  (exists m, o = Some m /\ next fuel (latch Serial st) d = Ok (Some m, st', d')).
+Proof.
+  unfold next. induction fuel as [|f IH]; intros st d o st' d' Hs Hl Hn H; [discriminate|].
+  rewrite next_S in H |- *. cbn [latch i_det_serial i_det_storage]. rewrite Hl, Hs in H. rewrite Hs. cbn [bind].
+  assert (Hpass : storage_half false st d = Ok APass).
+  { unfold storage_half. destruct (N.lt_ge_cases (blen d) 20) as [H20|H20].
+    - rewrite (parse_storage_short _ _ H20). rewrite Hs.
+      assert (E : (MIN_DLT_MSG_SIZE <=? blen d) = false) by (apply N.leb_gt; exact H20). rewrite E. reflexivity.
+    - rewrite (parse_storage_nopat _ _ H20 (Hn 0%nat)). rewrite Hs. reflexivity. }
+  rewrite Hpass in H. cbn [bind] in H.
+  unfold serial_half in *. cbn [latch i_index].
+  destruct (parse_serial (i_index st) d) as [n m| |k] eqn:Ep.
+  - change (on_msg false (latch Serial st) n m) with (on_msg false st n m).
+    destruct (on_msg false st n m) as [a| |] eqn:Eo; cbn [bind] in H |- *; try discriminate.
+    destruct (on_msg_index _ _ _ _ _ Eo) as [st1 [-> _]]. inversion H; subst. right. exists m. split; reflexivity.
+  - cbn [bind] in H |- *. change (skip1 (latch Serial st)) with (latch Serial (skip1 st)).
+    apply (IH (skip1 st) (skipn 1 d) o st' d'); auto. apply (no_other_marker_tl Serial). exact Hn.
+  - cbn [bind] in H |- *. inversion H; subst. left. split; [reflexivity|]. eexists. eexists. reflexivity.
+Qed.
+
+(* for one framing f and a byte string without the other framing's marker: a fresh iterator (nothing latched)
+   yields exactly the messages an iterator with f already latched yields; once a message was yielded the two runs
+   coincide completely (state, unconsumed rest) *)
+Theorem fresh_like_latched f : forall fuel nfuel st s ms st' rest,
+  i_det_storage st = false -> i_det_serial st = false -> no_other_marker f s ->
+  drain_fuel fuel nfuel st s = Ok (ms, st', rest) ->
+  exists st'' rest'', drain_fuel fuel nfuel (latch f st) s = Ok (ms, st'', rest'') /\
+                      i_index st'' = i_index st' /\
+                      (ms <> [] -> st'' = st' /\ rest'' = rest).
+Proof.
+  intros fuel nfuel st s ms st' rest Hs Hl Hn H.
+  destruct fuel as [|fuel]; [discriminate|].
+  rewrite drain_fuel_S in H |- *.
+  destruct (next nfuel st s) as [[[o st1] d1]| |] eqn:En; cbn [bind] in H; try discriminate.
+  assert (Hcases : (o = None /\ exists st'' d'', next nfuel (latch f st) s = Ok (None, st'', d'')) \/
+                   (exists m, o = Some m /\ next nfuel (latch f st) s = Ok (Some m, st1, d1))).
+  { destruct f; [exact (next_fresh_storage nfuel st s o st1 d1 Hs Hl Hn En)|exact (next_fresh_serial nfuel st s o st1 d1 Hs Hl Hn En)]. }
+  destruct Hcases as [[-> [st'' [d'' E2]]]|[m [-> E2]]]; rewrite E2; cbn [bind].
+  - inversion H; subst. exists st'', d''. split; [reflexivity|]. split; [|intros C; contradiction C; reflexivity].
+    pose proof (next_inv nfuel st s ltac:(unfold not_both; rewrite Hs; reflexivity)) as P1. rewrite En in P1.
+    pose proof (next_inv nfuel (latch f st) s ltac:(unfold not_both, latch; cbn [i_det_storage i_det_serial]; rewrite Hs, Hl; destruct f; reflexivity)) as P2.
+    rewrite E2 in P2. cbn [next_post] in P1, P2.
+    destruct P1 as [_ [_ [_ [_ [_ Q1]]]]]. destruct P2 as [_ [_ [_ [_ [_ Q2]]]]]. cbn [latch i_index] in Q2. congruence.
+  - destruct (drain_fuel fuel nfuel st1 d1) as [[[ms1 st2] d2]| |]; cbn [bind] in H |- *; try discriminate.
+    inversion H; subst. exists st', rest. split; [reflexivity|]. split; [reflexivity|]. intros _. split; reflexivity.
+Qed.
+
+Lemma latched_latch f st : st_ok f st -> latched f st = latch f (ist_new 0).
+Proof. unfold st_ok, latched, latch, ist_new. destruct f; cbn [i_det_storage i_det_serial i_index i_processed i_skipped]; intros ->; reflexivity. Qed.
+
+(* FRESH iterator on the suffix vs the iterator that continues behind k >= 1 whole messages: what a fresh iterator
+   (start index 0) recognises in s is what the continuing one recognises there, indices advanced *)
+Theorem position_independent_fresh f l s st fuel nfuel ms st' rest :
+  st_ok f st -> prefix_ok f l s -> l <> [] -> no_other_marker f s ->
+  drain_fuel fuel (S nfuel) (ist_new 0) s = Ok (ms, st', rest) ->
+  i_index st + N.of_nat (length l) + i_index st' <= u32max ->
+  exists st'' rest'',
+    drain_fuel (length l + fuel) (S nfuel) st (encs f l ++ s) =
+    Ok (expect_from f (i_index st) l ++ map (msg_shift (i_index st + N.of_nat (length l))) ms, st'', rest'') /\
+    (ms <> [] ->
+     st'' = ist_shift (i_index st + N.of_nat (length l)) (i_processed st + blen (encs f l)) (i_skipped st) st' /\
+     rest'' = rest).
+Proof.
+  intros Hok Hp Hne Hn Hd Hb.
+  destruct (fresh_like_latched f fuel (S nfuel) (ist_new 0) s ms st' rest eq_refl eq_refl Hn Hd) as [st2 [rest2 [E2 [Hi Hsame]]]].
+  rewrite <- (latched_latch f st Hok) in E2.
+  pose proof (position_independent f l s st fuel nfuel ms st2 rest2 Hok Hp (or_introl Hne) E2 ltac:(rewrite Hi; exact Hb)) as P.
+  eexists. eexists. split; [exact P|].
+  intros Hms. destruct (Hsame Hms) as [-> ->]. split; reflexivity.
 Qed.
